@@ -401,7 +401,12 @@ def make_config(scn: dict, cfg: dict, **over: Any):
     c = dict(cfg)
     c.update(over)
     n = len(scn["atoms"])
-    obs = [make_observable(d, n, c["backend"]) for d in c["observables"]]
+    holder = c.get("_obs_holder")
+    if holder is not None:
+        # the same observable INSTANCES are handed to several configs (runs) of one process
+        obs = holder.setdefault("objs", [make_observable(d, n, c["backend"]) for d in c["observables"]])
+    else:
+        obs = [make_observable(d, n, c["backend"]) for d in c["observables"]]
     kw: dict[str, Any] = {
         "dt": c["dt"],
         "observables": obs,
